@@ -136,9 +136,44 @@ class NFA:
         return len(self.eps) - 1
 
 
+def _one_char_mask(sub, flags, alpha):
+    """symbol mask when the sequence is a single one-character item, else None"""
+    items = list(sub)
+    if len(items) == 1 and str(items[0][0]) in ('LITERAL', 'NOT_LITERAL', 'ANY', 'IN'):
+        return alpha.leaf(items[0], flags)
+    return None
+
+
 def _compile_seq(nfa, seq, flags, cur, wanted, alpha):
+    look = None          # (mask, positive) of a one-character look-ahead that restricts the next consumed character
     for op, av in seq:
         ops = str(op)
+        if ops in ('ASSERT', 'ASSERT_NOT') and av[0] == 1:
+            # (?=[set]) / (?![set]) in front of an item that consumes a character: that character is taken from the restricted set.
+            # Only this one-character form is modelled.
+            m = _one_char_mask(av[1], flags, alpha)
+            if m is None or look is not None:
+                raise AnalysisError('unsupported regex construct: %s of more than one character' % ops)
+            look = (m, ops == 'ASSERT')
+            continue
+        if look is not None:
+            m, positive = look
+            look = None
+            restrict = (lambda x: x & m) if positive else (lambda x: x & ~m)
+            if ops in ('LITERAL', 'NOT_LITERAL', 'ANY', 'IN'):
+                n = nfa.new()
+                nfa.tr[cur].append((restrict(alpha.leaf((op, av), flags)), n))
+                cur = n
+                continue
+            if ops in ('MAX_REPEAT', 'MIN_REPEAT') and av[0] >= 1 and _one_char_mask(av[2], flags, alpha) is not None:
+                lo, hi, sub = av
+                n = nfa.new()
+                nfa.tr[cur].append((restrict(_one_char_mask(sub, flags, alpha)), n))
+                cur = n
+                rest = (op, (lo - 1, hi if hi == MAXREPEAT else hi - 1, sub))
+                cur = _compile_seq(nfa, [rest], flags, cur, wanted, alpha)
+                continue
+            raise AnalysisError('unsupported regex construct: look-ahead in front of %s' % ops)
         if ops in ('LITERAL', 'NOT_LITERAL', 'ANY', 'IN'):
             n = nfa.new()
             nfa.tr[cur].append((alpha.leaf((op, av), flags), n))
@@ -224,6 +259,8 @@ def _compile_seq(nfa, seq, flags, cur, wanted, alpha):
             cur = n
         else:
             raise AnalysisError('unsupported regex construct: %s' % ops)
+    if look is not None:
+        raise AnalysisError('unsupported regex construct: look-ahead at the end of a sequence')
     return cur
 
 
